@@ -159,6 +159,17 @@ pub fn rejoin_cflist_history(region: RegionId, front: FrontKind, seed: u64, k: u
     History { cfg: DevCfg { region, join_bias: None, front, board: (14, 0) }, activation: Activation::Otaa, board: Board::default(), rng_script: vec![], rng_seed: seed ^ k as u64, steps }
 }
 
+/// Scripted random numbers: a few arbitrary values, values at the type limits, or an entropy source that
+/// dwells on one value for a long while (a rejection-sampling loop then needs that many draws, well inside
+/// the per-call budget) before the fair continuation takes over.
+pub fn rng_script_strategy() -> impl Strategy<Value = Vec<u32>> {
+    let v = || prop_oneof![3 => any::<u32>(), 1 => Just(0u32), 1 => Just(u32::MAX), 1 => Just(0x7FFF_FFFFu32), 1 => Just(0x8000_0000u32), 1 => 0u32..80];
+    prop_oneof![
+        6 => proptest::collection::vec(v(), 0..6),
+        1 => (proptest::collection::vec(v(), 0..4), v(), 200usize..1500).prop_map(|(mut pre, x, n)| { pre.extend(std::iter::repeat(x).take(n)); pre }),
+    ]
+}
+
 /// SNR the radio reports for received frames: usually plausible, sometimes anything an i8 can hold
 pub fn snr_strategy() -> impl Strategy<Value = i8> {
     prop_oneof![4 => -20i8..=12, 1 => Just(31i8), 1 => Just(32i8), 1 => Just(-32i8), 1 => Just(-33i8), 1 => Just(127i8), 1 => Just(-128i8), 2 => any::<i8>()]
@@ -173,7 +184,7 @@ pub fn cfg_strategy() -> impl Strategy<Value = DevCfg> {
 
 /// general random histories: OTAA (join first) or ABP, any region / front-end
 pub fn history_strategy(max_steps: usize) -> impl Strategy<Value = History> {
-    (cfg_strategy(), any::<bool>(), any::<u64>(), proptest::collection::vec(any::<u32>(), 0..6), (any::<bool>(), snr_strategy())).prop_flat_map(move |(cfg, otaa, seed, script, (nb_async, snr))| {
+    (cfg_strategy(), any::<bool>(), any::<u64>(), rng_script_strategy(), (any::<bool>(), snr_strategy())).prop_flat_map(move |(cfg, otaa, seed, script, (nb_async, snr))| {
         let reg = Reg::from_name(cfg.region.name()).unwrap();
         let class_c = cfg.front == FrontKind::AsyncClassC;
         let first = if otaa { join_accept_strategy(reg, true).prop_map(|r| vec![Step::Join(RxPlan::rx1(r))]).boxed() } else { Just(vec![]).boxed() };
